@@ -186,6 +186,14 @@ func genDigits(t *rapid.T, label string) B {
 	if rapid.IntRange(0, 5).Draw(t, label+"_z") == 0 {
 		s = strings.Repeat("0", rapid.IntRange(1, 12).Draw(t, label+"_zn")) + s
 	}
+	if oneIn(t, label+"_zlong", 30) {
+		// zero-padded far beyond the usual width: the total length, or the number of zeros, is a needle size
+		n := longN(t, label+"_zlen")
+		if rapid.Bool().Draw(t, label+"_ztotal") && n > len(s) {
+			n -= len(s)
+		}
+		s = strings.Repeat("0", n) + s
+	}
 	return B(s)
 }
 
@@ -499,6 +507,19 @@ func genParamName(t *rapid.T) B {
 	switch weighted(t, "pname_k", 5, 4) {
 	case 0:
 		n := []byte(pick(t, "pname", "tag", "expires", "q", "lr", "tag", "TAG", "Tag", "Expires", "EXPIRES", "Q", "LR", "Lr"))
+		if oneIn(t, "pname_ext", 8) {
+			// a longer or shorter name around a known one is an ordinary parameter
+			switch pick(t, "pname_extk", 0, 1, 2) {
+			case 0:
+				n = append(n, pick(t, "pname_suf", "x", "s", "-at", "_in", "2", "ed", "lr")...)
+			case 1:
+				n = append([]byte(pick(t, "pname_pre", "x", "min-", "q", "no")), n...)
+			default:
+				if len(n) > 1 {
+					n = n[:len(n)-1]
+				}
+			}
+		}
 		return n
 	default:
 		return genFrom(t, "pname_r", "abcdefgtqlrxyz0123456789-_.!%*+", 1, 8)
